@@ -226,6 +226,8 @@ def list_eq(a, b):
 def add_common(reg):
     reg.add(Contract(
         target="trees.trees.has_children", prop="C19", args=dict(tree=REF), inline=True))
+    reg.add(Contract(target="trees.trees.make_node_data", prop="C19", args={}, inline=True))
+    reg.add(Contract(target="trees.trees.make_node_data_fill", prop="C19", args={}, inline=True))
     reg.add(Contract(
         target="trees.trees.terminals", prop="C19", args=dict(tree=REF),
         requires=lambda S, tree: WF(S.H, tree) & (tree != None),
